@@ -7,9 +7,9 @@ import PallasVerif.Model.PlutusData
   `tag`, `probe`, `int`, `u64`, `bytes`, `bytes_iter`, `array`, `map`, `array_iter_with`, `map_iter_with`,
   `Vec<T>`), transcribed arm by arm over the remaining input (position = consumed prefix).
 
-  Unlike `PlutusData.decode` (strict L1 parser + `ofItem`) this keeps the decoder's leniencies:
-  for tag 102 `d.array()?` accepts any array head and its length is ignored (for an indefinite
-  array the break is not consumed). Errors are collapsed to `none` (the Rust error classes are
+  For tag 102 the inner array must be a definite array of exactly 2 items or an indefinite array
+  whose break follows the two items (the break is consumed); the length is checked after both
+  items were decoded, as the Rust does. Errors are collapsed to `none` (the Rust error classes are
   message strings). Import-free.
 -/
 namespace PallasVerif.PlutusData.Dec
@@ -161,13 +161,22 @@ def decConstr : Nat → Bytes → Option (PData × Bytes)
       if isConstrTag t then
         (decMaybeIndef fuel r).map fun ((df, xs), r') => (.constr t none df xs, r')
       else if t = 102 then
-        match readSeqHead 4 r with     -- `d.array()?`, result discarded
+        match readSeqHead 4 r with     -- `let len = d.array()?`
         | none => none
-        | some (_, r1) =>
+        | some (len, r1) =>
           match readU64 r1 with
           | none => none
           | some (a, r2) =>
-            (decMaybeIndef fuel r2).map fun ((df, xs), r') => (.constr 102 (some a) df xs, r')
+            match decMaybeIndef fuel r2 with
+            | none => none
+            | some ((df, xs), r3) =>
+              match len with
+              | some n => if n = 2 then some (.constr 102 (some a) df xs, r3) else none
+              | none =>
+                -- indefinite array: the next byte must be the break, and it is consumed
+                match r3 with
+                | [] => none
+                | b :: r4 => if b = 0xff then some (.constr 102 (some a) df xs, r4) else none
       else none
 /-- `impl Decode for MaybeIndefArray<PlutusData>` -/
 def decMaybeIndef : Nat → Bytes → Option ((Bool × List PData) × Bytes)
